@@ -23,6 +23,7 @@ import RapidProofs.Contracts
 import RapidProofs.ContractsGen
 import RapidProofs.ContractsFloat
 import RapidProofs.ContractsGen2
+import RapidProofs.TranslatedEq
 import RapidModel.Minimize
 
 namespace Rapid.C03
@@ -144,6 +145,34 @@ theorem float_infinite_only_if_bound (f : FFmt) (hpos : 0 < f.inf.toNat) (min ma
     · omega
 
 example : 0 < fmt32.inf.toNat ∧ 0 < fmt64.inf.toNat := by decide
+
+/-! ### the float code of /repo, translated on every run, is the model the theorems are about
+
+  `extract/translate.go` turns `bitmask64`, `ufloatFracBits`, `ufloat64Parts`, `ufloat64FromParts` and the
+  two `switch` blocks of `genUfloatRange` (floats.go, utils.go) into Lean definitions
+  (`RapidModel/Generated/Translated.lean`, rewritten from the working tree on every run).  The theorems
+  below identify them with the hand-written model for ALL arguments: a change of any of these
+  functions in /repo breaks a proof here, not only a sampled correspondence. -/
+
+theorem source_bitmask64 (n : UInt64) : Translated.bitmask64 n = bitmask64 n.toNat := tr_bitmask64 n
+
+theorem source_ufloatFracBits (e : Int32) (s : UInt64) :
+    (Translated.ufloatFracBits e s).toNat = fracBits e.toInt s.toNat := tr_fracBits e s
+
+theorem source_ufloat64Parts (f : UInt64) :
+    ((Translated.ufloat64Parts f).1.toInt, (Translated.ufloat64Parts f).2.1, (Translated.ufloat64Parts f).2.2) = fmt64.parts f :=
+  tr_parts64 f
+
+theorem source_ufloat64FromParts (e : Int32) (si sf : UInt64) :
+    Translated.ufloat64FromParts e si sf = fmt64.ufromParts e.toInt si sf := tr_fromParts64 e si sf
+
+theorem source_genUfloatRange_switches (e : Int64) (fb S : UInt64) (l r : Bool) (maxExp minExp : Int32)
+    (maxSI minSI F0 F1 si : UInt64) (he : e.toInt32.toInt = e.toInt) (hfb : fb.toNat = fracBits e.toInt S.toNat) :
+    Translated.ufloatSwitchSI e fb l maxExp maxSI minExp minSI r S =
+      siBounds S.toNat (minExp.toInt, minSI, F0) (maxExp.toInt, maxSI, F1) e.toInt l r ∧
+    Translated.ufloatSwitchSF e fb l maxExp F1 maxSI minExp F0 minSI r si =
+      sfBounds S.toNat (minExp.toInt, minSI, F0) (maxExp.toInt, maxSI, F1) e.toInt l r si :=
+  ⟨tr_switchSI e fb S l r maxExp minExp maxSI minSI F0 F1 he hfb, tr_switchSF e fb S l r maxExp minExp maxSI minSI F0 F1 si he hfb⟩
 
 /-- the premises are satisfiable: `[-1.5, +Inf]` in float64 and `[-0, 1]` in float32 are admissible
     ranges, and NaN bounds or reversed bounds are not -/
